@@ -1,4 +1,5 @@
 """C09 — declared native amounts must equal the attached funds exactly (DESIGN §5 C09)."""
+import re
 from .. import common, roles
 from ..roles import P_, param, INFO_TY, AnchorMissing
 from ..mir import generic_path
@@ -72,6 +73,11 @@ def check_funds_fn(ctx, inst, chk):
         ("native-absent-zero", {"%s in ['NativeToken']" % info_disc, "discr(%s) in ['None']" % find_root,
                                 "is_zero(%s) is [True]" % self_amount}),
     ]
+    # equivalent single-comparison form: amount == find(..).map(|c| c.amount).unwrap_or(zero)
+    zero_roots = [r for b_, conds_, cs_ in tables for c_ in cs_ for r in re.findall(r"C:cosmwasm_std::Uint128::zero@[\w:<>{}#]+:bb\d+", c_)]
+    for zr in set(zero_roots):
+        alt = {"%s in ['NativeToken']" % info_disc, "eq(%s) is [True]" % ", ".join(sorted([self_amount, "or(%s.amount;%s)" % (find_root, zr)]))}
+        expected.append(("native-sent-equal", alt))
     seen = set()
     for b, conds, cs in tables:
         hit = [n for n, e in expected if e == cs]
@@ -82,8 +88,10 @@ def check_funds_fn(ctx, inst, chk):
         else:
             seen.add(hit[0])
             inst.site("Ok region '%s' at %s" % (hit[0], common.span_of_block_term(chk, b)))
+    if "native-sent-equal" in seen:
+        seen |= {"native-found-equal", "native-absent-zero"}
     for n, e in expected:
-        if n not in seen and n != "token":
+        if n not in seen and n not in ("token", "native-sent-equal"):
             inst.fail("C09.R1:missing-region:%s" % n, chk.path, chk.span, "no success exit for the region '%s' (the check would reject legitimate calls)" % n)
 
 
@@ -123,7 +131,7 @@ def check_before_everything(ctx, inst, fn, cont_edges, exempt_blocks, what, key)
 
 def run(ctx):
     P = ctx.P
-    r1 = ctx.inst("C09.R1", "decision table of the native-funds check: Ok only for {cw20} / {native, coin found, amount == coin.amount} / {native, no coin, amount == 0}", floor=4)
+    r1 = ctx.inst("C09.R1", "decision table of the native-funds check: Ok only for {cw20} / {native, coin found, amount == coin.amount} / {native, no coin, amount == 0}", floor=3)
     r2 = ctx.inst("C09.R2", "provide handler applies the check to every declared asset with the transaction's info, error propagated, before anything else", floor=2)
     r3 = ctx.inst("C09.R3", "swap handler applies the check to the named offer asset with the caller's info, error propagated, before pricing; both entry paths pass their own info", floor=3)
     try:
